@@ -1,6 +1,7 @@
 package checks
 
 import (
+	"bytes"
 	"context"
 	"encoding/binary"
 	"errors"
@@ -803,8 +804,129 @@ func c11Check(name string, valid bool, out *c11Obs) func(res *vrt.Result) *explo
 	}
 }
 
-func c11Units(thorough bool) []*explore.Unit {
+// c11APIUnits (tier W): structurally valid answers with odd contents, all the way up through
+// the public API: the cells returned for an increment / append / get (0-2 cells, value
+// lengths around the 8 bytes an increment carries), a mutate response without the
+// "processed" flag or without a result, a get response without a result. The call must
+// return a value or an error; nothing may panic and nothing may be left running.
+func c11APIUnits(thorough bool) []*explore.Unit {
 	var units []*explore.Unit
+	type variant struct {
+		name string
+		hook func(kind string, row []byte, resp proto.Message, cells []sim.KV) (proto.Message, []sim.KV)
+	}
+	var vs []variant
+	for _, ncells := range []int{0, 1, 2} {
+		for _, vlen := range []int{0, 1, 7, 8, 9} {
+			if ncells == 0 && vlen > 0 {
+				continue
+			}
+			ncells, vlen := ncells, vlen
+			vs = append(vs, variant{fmt.Sprintf("cells=%d|valuelen=%d", ncells, vlen), func(kind string, row []byte, resp proto.Message, cells []sim.KV) (proto.Message, []sim.KV) {
+				var out []sim.KV
+				for i := 0; i < ncells; i++ {
+					out = append(out, sim.KV{Row: row, Family: []byte("f"), Qualifier: []byte{'q', byte('0' + i)}, Value: bytes.Repeat([]byte{1}, vlen), TS: 7, Type: 4})
+				}
+				switch r := resp.(type) {
+				case *pb.MutateResponse:
+					r.Result = &pb.Result{AssociatedCellCount: proto.Int32(int32(ncells))}
+				case *pb.GetResponse:
+					r.Result = &pb.Result{AssociatedCellCount: proto.Int32(int32(ncells))}
+				}
+				return resp, out
+			}})
+		}
+	}
+	vs = append(vs,
+		variant{"no-result", func(kind string, row []byte, resp proto.Message, cells []sim.KV) (proto.Message, []sim.KV) {
+			switch r := resp.(type) {
+			case *pb.MutateResponse:
+				r.Result = nil
+			case *pb.GetResponse:
+				r.Result = nil
+			}
+			return resp, nil
+		}},
+		variant{"no-processed-flag", func(kind string, row []byte, resp proto.Message, cells []sim.KV) (proto.Message, []sim.KV) {
+			if r, ok := resp.(*pb.MutateResponse); ok {
+				r.Processed = nil
+			}
+			return resp, cells
+		}},
+		variant{"cells-in-protobuf-and-cellblock", func(kind string, row []byte, resp proto.Message, cells []sim.KV) (proto.Message, []sim.KV) {
+			c := &pb.Cell{Row: row, Family: []byte("f"), Qualifier: []byte("p"), Value: []byte{1, 2, 3}}
+			switch r := resp.(type) {
+			case *pb.MutateResponse:
+				r.Result.Cell = append(r.Result.Cell, c)
+			case *pb.GetResponse:
+				r.Result.Cell = append(r.Result.Cell, c)
+			}
+			return resp, cells
+		}})
+	for _, op := range []string{"increment", "append", "get", "put", "checkandput"} {
+		for _, v := range vs {
+			op, v := op, v
+			var err error
+			var returned bool
+			u := &explore.Unit{Name: fmt.Sprintf("api|%s|%s", op, v.name), Bound: 0, Opt: vrt.Options{MaxSteps: 60000}}
+			u.Body = func() {
+				err, returned = nil, false
+				cl := stdCluster()
+				cl.RespHook = func(kind string, row []byte, resp proto.Message, cells []sim.KV) (proto.Message, []sim.KV) {
+					if kind == "exists" {
+						return resp, cells
+					}
+					return v.hook(kind, row, resp, cells)
+				}
+				w := newWorldW(cl, gohbase.FlushInterval(0), gohbase.RpcQueueSize(1))
+				vals := map[string]map[string][]byte{"f": {"q": []byte("v")}}
+				ctx := context.Background()
+				switch op {
+				case "increment":
+					m, _ := hrpc.NewIncStrSingle(ctx, "t", "a", "f", "q", 1)
+					_, err = w.client.Increment(m)
+				case "append":
+					m, _ := hrpc.NewAppStr(ctx, "t", "a", vals)
+					_, err = w.client.Append(m)
+				case "get":
+					g, _ := hrpc.NewGetStr(ctx, "t", "a")
+					_, err = w.client.Get(g)
+				case "put":
+					m, _ := hrpc.NewPutStr(ctx, "t", "a", vals)
+					_, err = w.client.Put(m)
+				case "checkandput":
+					m, _ := hrpc.NewPutStr(ctx, "t", "a", vals)
+					_, err = w.client.CheckAndPut(m, "f", "q", []byte("x"))
+				}
+				returned = true
+				w.client.Close()
+				vrt.Sleep(10 * time.Minute)
+				for _, c := range cl.WConns {
+					c.Server.Stop = true
+				}
+			}
+			u.Check = func(res *vrt.Result) *explore.Finding {
+				if f := baseFinding(res); f != nil {
+					f.Msg += "\n" + u.Name
+					return f
+				}
+				if res.Deadlock || !returned {
+					return &explore.Finding{Class: "api-call-blocked-on-odd-response", Msg: fmt.Sprintf("%s: %v", u.Name, res.Blocked)}
+				}
+				if cb := clientBlocked(res); len(cb) > 0 {
+					return &explore.Finding{Class: "client-thread-left-blocked", Msg: fmt.Sprintf("%s: %v", u.Name, cb)}
+				}
+				return nil
+			}
+			u.Sig = func() string { return errClass(err) }
+			units = append(units, u)
+		}
+	}
+	return units
+}
+
+func c11Units(thorough bool) []*explore.Unit {
+	units := c11APIUnits(thorough)
 	add := func(k c11Kind, name string, frame func(id uint32) []byte, valid, huge bool, codec compression.Codec) {
 		out := &c11Obs{}
 		full := k.name + "|" + name
@@ -1032,7 +1154,7 @@ func init() {
 	register(&Prop{
 		ID: "C11", Level: "fault_enumeration",
 		Technique: "bounded exhaustive malformed-input enumeration: all short byte strings and the full boundary product of KeyValue length fields into the cellblock reader, every region-info value prefix/corruption, and structure-aware mutations / every truncation / byte flips of valid get, mutate, scan and multi response frames delivered through the real reader goroutine under the controlled scheduler",
-		Rule: "A: all byte strings of length <=2 (thorough <=3), all strings <=6 (8) over {00,01,0e,7f,80,ff}, 10x10x10x8x6 boundary values of kvLen/keyLen/valueLen/rowLen/famLen on exact, short and two-cell buffers (capacity = length), truncations x declared counts, 60+ region-info values. B: for each of 4 response kinds ~45-60 field mutations (call id, exception parts, delimiters, cell_block_meta.length, associated_cell_count, cells_per_result vs flags, multi index / duplicate / result-and-exception / region-result count / nameless exceptions, frame length) singly (thorough: in pairs), every truncation, 5 values at every byte, damaged compressed cellblocks; frames whose counts drive allocations run in a sub-process with a 2 GiB limit. Oracle: no panic in any thread, no caller or reader stranded, later calls served or refused. Non-trivial = every malformed input. Part A also: every hbase:meta row KEY of length <=5 over {t , a 1 00} with a valid region-info value, parsed and then used like a looked-up region (put into a cache that knows a region of the table, looked up); every sequence of <=2 (thorough 3) scan-result shapes (0-2 cells, partial flag, row a/b) as a first response through the real scanner, partial results allowed or not (no panic, the scan ends).",
+		Rule: "A: all byte strings of length <=2 (thorough <=3), all strings <=6 (8) over {00,01,0e,7f,80,ff}, 10x10x10x8x6 boundary values of kvLen/keyLen/valueLen/rowLen/famLen on exact, short and two-cell buffers (capacity = length), truncations x declared counts, 60+ region-info values. B: for each of 4 response kinds ~45-60 field mutations (call id, exception parts, delimiters, cell_block_meta.length, associated_cell_count, cells_per_result vs flags, multi index / duplicate / result-and-exception / region-result count / nameless exceptions, frame length) singly (thorough: in pairs), every truncation, 5 values at every byte, damaged compressed cellblocks; frames whose counts drive allocations run in a sub-process with a 2 GiB limit. Oracle: no panic in any thread, no caller or reader stranded, later calls served or refused. Non-trivial = every malformed input. Part A also: every hbase:meta row KEY of length <=5 over {t , a 1 00} with a valid region-info value, parsed and then used like a looked-up region (put into a cache that knows a region of the table, looked up); every sequence of <=2 (thorough 3) scan-result shapes (0-2 cells, partial flag, row a/b) as a first response through the real scanner, partial results allowed or not (no panic, the scan ends). Tier W: structurally valid answers with odd contents through the public API - increment / append / get / put / check-and-put x {0-2 cells x value lengths 0,1,7,8,9; no result; no processed flag; cells in the protobuf as well as in the cellblock}: the call returns a value or an error.",
 		Assumptions: []string{"allocation of a frame's own declared length (the 4-byte prefix) is inherent to the framing and not judged; prefixes above 1 MiB are not generated", "default thread schedule for part B (schedules are C03's subject)"},
 		Quick:       120 * time.Second, Thorough: 20 * time.Minute,
 		Units: c11Units, Direct: c11Direct,
